@@ -1183,6 +1183,21 @@ def _spec_set(node, pool, path, new):
     return False
 
 
+def _get_dict(out):
+    """the `get` output `k=ref,k=ref,...` as a dict (a list reference `n[a:e1,b:e2]` contains commas itself)"""
+    d, depth, cur = {}, 0, ""
+    for ch in ("" if out == "-" else out) + ",":
+        if ch == "," and depth == 0:
+            if cur:
+                k, _, v = cur.partition("=")
+                d[k] = v
+            cur = ""
+            continue
+        depth += (ch == "[") - (ch == "]")
+        cur += ch
+    return d
+
+
 def oracle_tree(case, real):
     """Property clauses that can be read off a single history without the model."""
     fails = []
@@ -1211,7 +1226,7 @@ def oracle_tree(case, real):
         try:
             pool = pool_classes()
             want = spec_get_keys(parse_tree(case["tree"]), pool)
-            got = dict(kv.split("=", 1) for kv in outs[0].split(",")) if outs[0] != "-" else {}
+            got = _get_dict(outs[0])
             if got != want:
                 diff = sorted(set(got) ^ set(want)) or sorted(k for k in got if got[k] != want.get(k))
                 fails.append(("%s:get_params-deep" % root, "get_params(deep=True) of %s: keys/values differ from the nested-form "
@@ -1227,7 +1242,7 @@ def oracle_tree(case, real):
             tree = parse_tree(case["tree"])
             if k in spec_get_keys(tree, pool) and _spec_set(tree, pool, k.split("__"), parse_tree(vs)):
                 want = spec_get_keys(tree, pool)
-                got = dict(kv.split("=", 1) for kv in outs[1].split(","))
+                got = _get_dict(outs[1])
                 if got != want:
                     diff = sorted(set(got) ^ set(want)) or sorted(x for x in got if got[x] != want.get(x))
                     fails.append(("%s:nested-set" % root, "set_params(%s=...) on %s changed / missed: %s" % (k, root, ",".join(diff[:5]))))
